@@ -576,6 +576,38 @@ theorem indexedSubset_pairs (d d' : LabeledData ι κ) (idx : List Nat) (hd : WF
 theorem view_lists_dataset (d : LabeledData ι κ) (h : WF d) : (View.ofDataset d).elements = (pairs d).map some := by
   rw [view_elements d h, flat_eq_pairs d h]
 
+theorem view_go_index : ∀ (sizes : List Nat) (b idx0 : Nat),
+    (View.ofDataset.go sizes b idx0).map (·.datasetIndex) = List.range' idx0 sizes.sum := by
+  intro sizes
+  induction sizes with
+  | nil => intro b idx0; simp [View.ofDataset.go]
+  | cons s rest ih =>
+    intro b idx0
+    simp only [View.ofDataset.go, List.map_append, List.map_map, ih, List.sum_cons]
+    rw [← List.range'_append_1]
+    congr 1
+    apply List.ext_getElem (by simp)
+    intro i h1 h2
+    simp
+
+/-- `DataView::index(i)`: the view of a dataset numbers its elements 0 … n-1 in order, and a subset reports the dataset
+indices of the elements it picked (`subset(v, idx).index(j) = v.index(idx[j])`) -/
+theorem view_index (d : LabeledData ι κ) (v w : View ι κ) (idx : List Nat) (h : v.subset idx = .ok w) :
+    (View.ofDataset d).indices.map (·.datasetIndex) = List.range d.numberOfElements ∧
+    w.indices.map (fun ix => some ix.datasetIndex) = idx.map (fun i => (v.indices[i]?).map (·.datasetIndex)) := by
+  constructor
+  · simp only [View.ofDataset, view_go_index, LabeledData.numberOfElements, Data.numberOfElements, LabeledData.partitioning]
+    exact List.range_eq_range'.symm
+  · simp only [View.subset, bind_ok, pure_ok] at h
+    obtain ⟨r, hr, rfl⟩ := h
+    simp only
+    induction idx generalizing r with
+    | nil => simp [List.mapM_nil, pure, Except.pure] at hr; subst hr; simp
+    | cons i idx ih =>
+      simp only [List.mapM_cons, bind_ok, ofOpt_ok, pure_ok] at hr
+      obtain ⟨x, hx, r', hr', rfl⟩ := hr
+      simp [hx, ih r' hr']
+
 /-- **view_subset_comp**: element j of `subset(view, idx)` is element `idx[j]` of the view; hence a subset of a
 subset is the subset by the composed index vector -/
 theorem view_subset_comp (v w u : View ι κ) (a b : List Nat) (h1 : v.subset a = .ok w) (h2 : w.subset b = .ok u) :
@@ -1472,6 +1504,73 @@ theorem weighted_ops_preserve_triples (d d' : WeightedData ι κ ω) (hinv : WIn
     obtain ⟨hi', hp'⟩ := weighted_step_preserves _ _ op hi hv ha
     exact ⟨hi', hp'.trans hp⟩
 
+theorem weights_flat_length (d : WeightedData ι κ ω) (h : WWF d) : (pairs d.data).length = d.weights.flat.length := by
+  rw [pairs_length d.data h.1, ← Data.numberOfElements_eq]
+  simp only [LabeledData.numberOfElements, Data.numberOfElements]
+  rw [h.2]
+
+/-- `append` of weighted datasets concatenates the triples; data and weights stay batched alike -/
+theorem weighted_append (d o : WeightedData ι κ ω) (hd : WWF d) (ho : WWF o) :
+    WWF (d.append o) ∧ triples (d.append o) = triples d ++ triples o := by
+  refine ⟨⟨?_, ?_⟩, ?_⟩
+  · show (d.data.inputs.append o.data.inputs).partitioning = (d.data.labels.append o.data.labels).partitioning
+    have h1 : d.data.inputs.partitioning = d.data.labels.partitioning := hd.1
+    have h2 : o.data.inputs.partitioning = o.data.labels.partitioning := ho.1
+    simp only [Data.append, Data.partitioning, List.map_append] at h1 h2 ⊢
+    rw [h1, h2]
+  · show (d.data.inputs.append o.data.inputs).partitioning = (d.weights.append o.weights).partitioning
+    have h1 := hd.2
+    have h2 := ho.2
+    simp only [Data.append, Data.partitioning, List.map_append] at h1 h2 ⊢
+    rw [h1, h2]
+  · simp only [triples, WeightedData.append, append_pairs _ _ hd.1, (append_flat _ _).1]
+    exact List.zip_append (weights_flat_length d hd)
+
+/-- `splice` of a weighted dataset: both parts keep data and weights batched alike, their triples concatenate to the original -/
+theorem weighted_splice (d l r : WeightedData ι κ ω) (b : Nat) (hd : WWF d) (h : d.splice b = .ok (l, r)) :
+    WWF l ∧ WWF r ∧ triples l ++ triples r = triples d := by
+  simp only [WeightedData.splice, bind_ok, pure_ok, Prod.mk.injEq] at h
+  obtain ⟨⟨dl, dr⟩, hdata, ⟨wl, wr⟩, hw, x, hmk, rfl, rfl⟩ := h
+  simp only [WeightedData.mk'] at hmk
+  split at hmk
+  · simp only [Except.ok.injEq] at hmk; subst hmk
+    obtain ⟨hwl, hwr, hpairs, hlp⟩ := splice_pairs d.data dl dr b hd.1 hdata
+    obtain ⟨hwp, hwq⟩ := splice_partitioning _ _ _ _ hw
+    have hrp : dr.inputs.partitioning = d.data.inputs.partitioning.drop b := by
+      simp only [LabeledData.splice, bind_ok, pure_ok, Prod.mk.injEq] at hdata
+      obtain ⟨⟨il, ir⟩, hi, ⟨ll, lr⟩, _, y, hy, rfl, rfl⟩ := hdata
+      simp only [LabeledData.mk'] at hy
+      split at hy
+      · simp only [Except.ok.injEq] at hy; subst hy
+        exact (splice_partitioning _ _ _ _ hi).2
+      · simp at hy
+    have hlp' : dl.inputs.partitioning = d.data.inputs.partitioning.take b := hlp
+    have wl_ : WWF (⟨dl, wl⟩ : WeightedData ι κ ω) := ⟨hwl, by show dl.inputs.partitioning = wl.partitioning; rw [hlp', hwp, hd.2]⟩
+    have wr_ : WWF (⟨dr, wr⟩ : WeightedData ι κ ω) := ⟨hwr, by show dr.inputs.partitioning = wr.partitioning; rw [hrp, hwq, hd.2]⟩
+    refine ⟨wl_, wr_, ?_⟩
+    simp only [triples]
+    rw [← hpairs, ← (splice_flat _ _ _ _ hw).1]
+    exact (List.zip_append (weights_flat_length _ wl_)).symm
+  · simp at hmk
+
+/-- `indexedSubset` of a weighted dataset applies one index list to inputs, labels and weights -/
+theorem weighted_indexedSubset (d d' : WeightedData ι κ ω) (idx : List Nat) (hd : WWF d) (h : d.indexedSubset idx = .ok d') :
+    WWF d' := by
+  simp only [WeightedData.indexedSubset, bind_ok, pure_ok] at h
+  obtain ⟨x, hx, wts, hw, rfl⟩ := h
+  obtain ⟨hwf, h1, _, _⟩ := indexedSubset_pairs d.data x idx hd.1 hx
+  refine ⟨hwf, ?_⟩
+  have h2 := (indexedSubset_batches _ _ _ hw).1
+  have e1 : x.inputs.partitioning.map some = idx.map (d.data.inputs.partitioning[·]?) := by
+    have := congrArg (List.map (Option.map List.length)) h1
+    simpa [Data.partitioning, List.map_map, Function.comp_def] using this
+  have e2 : wts.partitioning.map some = idx.map (d.weights.partitioning[·]?) := by
+    have := congrArg (List.map (Option.map List.length)) h2
+    simpa [Data.partitioning, List.map_map, Function.comp_def] using this
+  rw [hd.2] at e1
+  have h4 := congrArg (List.filterMap id) (e1.trans e2.symm)
+  simpa [List.filterMap_map] using h4
+
 end Weighted
 
 /-! ## G. shared batches (`boost::shared_ptr`): structural operations never let one dataset change another -/
@@ -1585,6 +1684,45 @@ other dataset -- whatever copies, subsets, appended datasets or views shared bat
 theorem write_after_makeIndependent_isolated (w w1 w2 : World ι κ) (hv : w.Valid) (a i : Nat) (x : ι) (y : κ)
     (h1 : w.makeIndependent a = .ok w1) (h2 : w1.setElement a i x y = .ok w2) (k : Nat) (hk : k ≠ a) :
     w2.value k = w.value k := World.write_after_makeIndependent_isolated w w1 w2 hv a i x y h1 h2 k hk
+
+theorem labeled_repartition_loop_eq (d : LabeledData ι κ) (sizes : List Nat) :
+    d.repartitionByLoop sizes = d.repartition sizes := by
+  simp only [LabeledData.repartitionByLoop, LabeledData.repartition, repartition_loop_eq]
+
+/-- **class-wise repartitioning on shared batches** (`repartition` + `reorderElements` at the pointer level): the value of the
+dataset is what the value-level `repartitionByClass` of section F computes, no other dataset changes -/
+theorem repartitionByClass_simulates_values (w w' : World ι Nat) (hv : w.Valid) (a bs : Nat)
+    (h : w.repartitionByClass a bs = .ok w') :
+    w'.Valid ∧ Dataset.repartitionByClass (w.value a) bs = .ok (w'.value a) ∧ ∀ k, k ≠ a → w'.value k = w.value k := by
+  simp only [World.repartitionByClass, bind_ok, ofOpt_ok] at h
+  obtain ⟨counts, hc, ⟨x1, x2, sizes⟩, hbp, w1, hrep, labs, hlabs, hreo⟩ := h
+  obtain ⟨v1, s1⟩ := World.sim_repartition w w1 hv a sizes hrep
+  obtain ⟨v2, s2⟩ := World.sim_reorder w1 w' v1 a _ hreo
+  simp only [SOp.runV, bind_ok, ofOpt_ok, pure_ok] at s1 s2
+  obtain ⟨x, hx, xr, hxr, e1⟩ := s1
+  obtain ⟨y, hy, yr, hyr, e2⟩ := s2
+  have alt : a < w.absD.length := by
+    rcases Nat.lt_or_ge a w.absD.length with hlt | hge
+    · exact hlt
+    · rw [List.getElem?_eq_none hge] at hx; simp at hx
+  have hva : w.value a = x := by rw [World.value_eq, hx]; rfl
+  have hw1 : w1.value a = xr := by rw [World.value_eq, ← e1]; simp [alt]
+  have hyx : y = xr := by
+    rw [← e1] at hy
+    simp [alt] at hy
+    exact hy.symm
+  subst hyx
+  have alt1 : a < w1.absD.length := by rw [← e1]; simpa using alt
+  have hw' : w'.value a = yr := by rw [World.value_eq, ← e2]; simp [alt1]
+  refine ⟨v2, ?_, ?_⟩
+  · rw [hva] at hc
+    rw [hw1] at hlabs
+    rw [hva, hw']
+    simp only [Dataset.repartitionByClass, bind_ok, ofOpt_ok]
+    exact ⟨counts, hc, (x1, x2, sizes), hbp, y, by rw [← labeled_repartition_loop_eq]; exact hxr, labs, hlabs, hyr⟩
+  · intro k hk
+    rw [World.value_eq, World.value_eq, ← e2, ← e1]
+    simp [List.getElem?_set, Ne.symm hk]
 
 /-- witness that the hypothesis `makeIndependent` matters: without it the write shows in the copy -/
 theorem write_on_shared_changes_sibling_witness :
